@@ -117,7 +117,10 @@ Qed.
 
 (* ---------------- the union builder of a list of variant fields ---------------- *)
 Definition child_ok (f : Field) (c : UChild) : Prop :=
-  match c with UCNull _ => fdt' f = DNull | UCB b => shape f b /\ WfB b end.
+  match c with
+  | UCNull _ => fdt' f = DNull
+  | UCB b => shape f b /\ WfB b /\ match fdt' f with DBytes k => is_utf8_kind k = true | _ => True end   (* binary variants: not in this model *)
+  end.
 
 Definition UShape (ufs : list Field) (fields : list (Meta * UChild)) : Prop :=
   Forall2 (fun f (mc : Meta * UChild) => fst mc = meta_of f /\ child_ok f (snd mc)) ufs fields.
@@ -145,9 +148,9 @@ Proof.
   - intros Hd Hc H. destruct (nullish (strip x)) eqn:En; [|discriminate]. injection H as <-. exists LNull.
     destruct f as [nm dt nl]. cbn [fdt'] in Hd. subst dt. rewrite interp_null_field, En. cbn [decode] in *. injection Hc as <-.
     split; [reflexivity|]. split; [cbn [child_content child_array decode]; rewrite repeat_snoc; reflexivity|reflexivity].
-  - intros [Hs Hw] Hc H. apply bind_ok in H as (b' & Hp & H). injection H as <-.
+  - intros (Hs & Hw & Hk) Hc H. apply bind_ok in H as (b' & Hp & H). injection H as <-.
     destruct (push_sound x f b b' vs Hs Hw Hc Hp) as (lv & Hi & Hc' & Hs'). destruct (push_wf x b b' Hw Hp) as [Hw' _].
-    exists lv. split; [exact Hi|]. split; [exact Hc'|split; assumption].
+    exists lv. split; [exact Hi|]. split; [exact Hc'|repeat split; assumption].
 Qed.
 
 Lemma nth_error_variants (ufs : list Field) i : nth_error (combine (map Z.of_nat (seq 0 (length ufs))) ufs) i
@@ -204,11 +207,11 @@ Definition core_dt (dt : DT) : Prop :=
 
 Lemma child_ok_core f c : child_ok f c -> core_dt (fdt' f).
 Proof.
-  destruct c as [n|b]; cbn [child_ok]; [intros ->; exact I|]. intros [Hs _].
+  destruct c as [n|b]; cbn [child_ok]; [intros ->; exact I|]. intros (Hs & _ & Hk).
   destruct b as [v vals len|k v vals|k v offs data|k v offs m e|len v cs]; cbn [shape] in Hs.
   - destruct Hs as [-> _]. exact I.
   - destruct Hs as [-> _]. exact I.
-  - destruct Hs as (-> & Hu & _). destruct k; try discriminate Hu; exact I.
+  - destruct Hs as (Hd & _). rewrite Hd in *. destruct k; try discriminate Hk; exact I.
   - destruct Hs as (cf & -> & _). exact I.
   - destruct Hs as (fs & -> & _). exact I.
 Qed.
